@@ -443,7 +443,7 @@ Definition post_fragment (F : pystr) (h : graph) (bd : ndict (list pystr)) (ann 
   let g5 := set_all_nodes g4 (S "w") (VInt 1) in
   update_nodes_from g5 (node_updates ann).
 
-Theorem coarse_graph_roundtrip : forall fo a0 dh F (D : Z -> list dspec) g tr,
+Lemma coarse_graph_roundtrip_core : forall fo a0 dh F (D : Z -> list dspec) g tr,
   fragment_node_parser fo [] = Ok a0 ->
   wf_C07 g = true -> (forall n, In n g -> aget (S "aromatic") (na n) = None) ->
   ring_contract g (dfs_tree g) tr = true ->
@@ -451,9 +451,10 @@ Theorem coarse_graph_roundtrip : forall fo a0 dh F (D : Z -> list dspec) g tr,
   exists T, NoDup (rkeys T) /\ (forall x, In x (rkeys T) <-> In x (node_keys g)) /\
     let items := the_items (name_of g) (esym_of g) (rsym_of g tr) T tr in
     let dl := combine items (map D (worder T)) in
-    (* the decorated item list is a text of the strip grammar (in particular: no bond symbol directly before "(") *)
-    (dl_wf ZStart 0 dl = true ->
-     exists txt h, write_graph_by (S "atomname") false dh (decorate_graph F D g) tr = Ok txt
+    dl_ok dl /\ map fst dl = items /\
+    (* whatever shows that the strip model splits the text of the decorated item list as the specification says *)
+    (strip_bonding_descriptors fo (render (ditems dl)) = Ok (lins_str items, ddict 0 dl [], [], adict a0 0 dl []) ->
+     exists txt h, txt = render (ditems dl) /\ write_graph_by (S "atomname") false dh (decorate_graph F D g) tr = Ok txt
        /\ strip_bonding_descriptors fo txt = Ok (lins_str items, ddict 0 dl [], [], adict a0 0 dl [])
        /\ read_cgsmiles fo (lins_str items) = Ok h
        /\ graph_iso (fun k => base_attrs (name_of g k)) g h
@@ -471,7 +472,7 @@ Proof.
   { intros k. unfold A. destruct (in_dec Z.eq_dec k (node_keys g)) as [Hk|Hk].
     - now rewrite (valid_name_parse fo _ (wf_valid_names g k Hwf Hk)).
     - rewrite (name_of_outside g k Hk). reflexivity. }
-  exists T. split; [exact B3|]. split; [exact A5|]. cbv zeta. intros Hdl.
+  exists T. split; [exact B3|]. split; [exact A5|]. cbv zeta.
   cbv zeta in X.
   set (fl := the_flat (esym_of g) (rsym_of g tr) T tr) in *.
   set (L := the_log (esym_of g) (rsym_of g tr) A T tr) in *.
@@ -524,8 +525,7 @@ Proof.
     pose proof (in_combine_l _ _ _ _ Hin) as Hi. pose proof (in_combine_r _ _ _ _ Hin) as Hd. apply in_map_iff in Hd as [k [<- _]].
     rewrite Forall_forall in Hmr. destruct (Hmr i Hi). auto. }
   assert (Hfst : map fst dl = items) by (unfold dl; apply combine_fst; now rewrite map_length).
-  assert (St : strip_bonding_descriptors fo (render (ditems dl)) = Ok (lins_str items, ddict 0 dl [], [], adict a0 0 dl [])).
-  { rewrite (strip_ditems fo a0 Hp0 dl Hok Hdl). now rewrite Hfst. }
+  split; [exact Hok|]. split; [exact Hfst|]. intros St.
   (* 4. the reader on the clean text *)
   assert (Hlok : lins_ok fo items = true).
   { unfold lins_ok, items, the_items.
@@ -534,7 +534,7 @@ Proof.
       cbn [dout Nat.sub lin_depth andb]. apply tlinsR_first.
     - intros k Hk. apply valid_name_ok. apply wf_valid_names; [exact Hwf|now apply Hkeys]. }
   assert (Rd : read_cgsmiles fo (lins_str items) = Ok (replay L gempty)) by (rewrite (reader_sim_lin_nobrace fo items Hlok); exact M1).
-  exists (render (ditems dl)), (replay L gempty). split; [rewrite Wd; f_equal; exact Etxt|]. split; [exact St|]. split; [exact Rd|]. split.
+  exists (render (ditems dl)), (replay L gempty). split; [reflexivity|]. split; [rewrite Wd; f_equal; exact Etxt|]. split; [exact St|]. split; [exact Rd|]. split.
   - apply (graph_iso_ext A); [exact HA|].
     apply (explicit_graph_iso A g fl L).
     + unfold fl. rewrite flat_old. now apply worder_nodup.
@@ -546,6 +546,29 @@ Proof.
     + exact Hiso.
     + intros e He. destruct (Hedge e He) as [ra [rb (H1 & H2 & H3 & _)]]. eauto.
   - unfold read_coarse_fragment. rewrite St. cbn [bind]. unfold read_fragment_cgsmiles. rewrite Rd. cbn [bind]. reflexivity.
+Qed.
+
+Theorem coarse_graph_roundtrip : forall fo a0 dh F (D : Z -> list dspec) g tr,
+  fragment_node_parser fo [] = Ok a0 ->
+  wf_C07 g = true -> (forall n, In n g -> aget (S "aromatic") (na n) = None) ->
+  ring_contract g (dfs_tree g) tr = true ->
+  (forall k, forallb d_ok (D k) = true) ->
+  exists T, NoDup (rkeys T) /\ (forall x, In x (rkeys T) <-> In x (node_keys g)) /\
+    let items := the_items (name_of g) (esym_of g) (rsym_of g tr) T tr in
+    let dl := combine items (map D (worder T)) in
+    (* the decorated item list is a text of the strip grammar (in particular: no bond symbol directly before "(") *)
+    (dl_wf ZStart 0 dl = true ->
+     exists txt h, write_graph_by (S "atomname") false dh (decorate_graph F D g) tr = Ok txt
+       /\ strip_bonding_descriptors fo txt = Ok (lins_str items, ddict 0 dl [], [], adict a0 0 dl [])
+       /\ read_cgsmiles fo (lins_str items) = Ok h
+       /\ graph_iso (fun k => base_attrs (name_of g k)) g h
+       /\ read_coarse_fragment fo F txt = Ok (post_fragment F h (ddict 0 dl []) (adict a0 0 dl []))).
+Proof.
+  intros fo a0 dh F D g tr Hp0 Hwf Har Hrc HD.
+  destruct (coarse_graph_roundtrip_core fo a0 dh F D g tr Hp0 Hwf Har Hrc HD) as [T (B3 & A5 & X)].
+  exists T. split; [exact B3|]. split; [exact A5|]. cbv zeta in *. destruct X as (Hok & Hfst & X). intros Hdl.
+  destruct X as [txt [h (_ & R)]]; [|exists txt, h; exact R].
+  rewrite (strip_ditems fo a0 Hp0 _ Hok Hdl). now rewrite Hfst.
 Qed.
 
 
